@@ -535,6 +535,52 @@ fn garbage_body(g: &Garbage, rec: &mut Rec) -> CaseResult {
     Ok(())
 }
 
+/// libFuzzer entry (target `fz_zonefile`): the octets, read as UTF-8 with replacement characters,
+/// are a zone file; the oracle is the robustness clause (`garbage_body`: Ok or Err, no panic, and
+/// libFuzzer's own per-input timeout for the endless loop). A `$INCLUDE` whose argument could name
+/// a real file (any slash or backslash outside the `/nonexistent-verif/` prefix) is kept away from
+/// the parser: coverage guidance would sooner or later spell `/dev/zero`.
+pub fn fuzz_one(data: &[u8]) -> CaseResult {
+    let text = String::from_utf8_lossy(data).into_owned();
+    let mut rest = text.as_str();
+    while let Some(i) = rest.find("$INCLUDE") {
+        rest = &rest[i + 8..];
+        let line = rest.split(['\n', '\r']).next().unwrap_or("").replace("/nonexistent-verif/", "");
+        if line.contains(['/', '\\']) {
+            return Ok(());
+        }
+    }
+    let mut rec = Rec::default();
+    garbage_body(&Garbage { class: "fuzz".to_string(), text }, &mut rec)
+}
+
+fn fuzz_seeds() -> Vec<Vec<u8>> {
+    let mut out: Vec<Vec<u8>> = vec![
+        b"$ORIGIN example.com.\n$TTL 300\n@ IN SOA ns hostmaster ( 1 2 3 4 5 )\n  NS ns\nns A 192.0.2.1\n* 60 IN TXT \"a b\" c\\\"d\n".to_vec(),
+        b"a 1 IN MX 10 mail\nb IN AAAA 2001:db8::1 ; c\n_s._tcp 5 IN SRV 0 0 53 ns.example.com.\nx CAA 0 issue \"ca.example\"\n".to_vec(),
+        b"h 1 IN HTTPS 1 . alpn=h2,h3 port=443 ipv4hint=192.0.2.1\ns 1 IN SVCB 0 t.example.com.\nt 1 IN TLSA 3 1 1 ( 00ff\n 11 )\nd DS 1 13 2 ABCD\n".to_vec(),
+        b"n 1 IN NAPTR 100 10 \"u\" \"E2U+sip\" \"!^.*$!sip:a@b!\" .\nf SSHFP 1 1 00\nc CSYNC 1 3 A NS\ni HINFO cpu os\nk CERT 1 2 3 AAAA\no OPENPGPKEY AAAA\n".to_vec(),
+        b"$INCLUDE /nonexistent-verif/x\n$INCLUDE rel.zone example.com. ; c\n".to_vec(),
+        b"a\\.b.example.com. 1d2h IN TXT ( \"x\"\n ; c\n y )\n\\065 1 IN A 1.2.3.4\n".to_vec(),
+    ];
+    // renderings of generated zone files in generated layouts
+    use proptest::strategy::{Strategy, ValueTree};
+    let mut runner = proptest::test_runner::TestRunner::new_with_rng(
+        proptest::test_runner::Config { failure_persistence: None, ..Default::default() },
+        proptest::test_runner::TestRng::from_seed(proptest::test_runner::RngAlgorithm::ChaCha, &[20u8; 32]),
+    );
+    let strat = zgen::garbage(Tier::Quick);
+    for _ in 0..40 {
+        if let Ok(t) = strat.new_tree(&mut runner) {
+            let (text, _) = t.current();
+            if text.len() <= 4096 {
+                out.push(text.into_bytes());
+            }
+        }
+    }
+    out
+}
+
 // ---------------------------------------------------------------------------------------------
 // $INCLUDE: the same record sets, with a run of the file's lines moved into an included file (and
 // a run of those into a second, nested one). RFC 1035 §5.1: the included file is read in place,
@@ -763,6 +809,14 @@ pub fn check() -> Option<Check> {
         garbage_body,
     );
     let include = prop_hang("include_layout", 30_000, 500_000, Duration::from_secs(10), include_case, include_body);
+    let fuzz: Box<dyn crate::core::Sub> = Box::new(crate::core::FuzzSub {
+        name: "fz_zonefile",
+        target: "fz_zonefile",
+        runs_thorough: 4_000_000,
+        max_len: 8_192,
+        oracle: fuzz_one,
+        seeds: fuzz_seeds,
+    });
     Some(Check {
         id: "C20",
         level: "exploration",
@@ -775,8 +829,8 @@ pub fn check() -> Option<Check> {
             "embedded domain names compared case-insensitively (the UTF-8 name path lower-cases; DNS-equal)",
             "include_layout keeps out what RFC 1035 leaves open: the line after a $INCLUDE states its owner and its TTL (or the parent's own $TTL is in force), included files carry no $TTL and state every TTL, all files sit in one directory; the optional domain-name argument of $INCLUDE is not generated (hickory refuses it with 'Domain name for $INCLUDE is not supported': an error, not a wrong record; recorded under observations)",
             "garbage: $INCLUDE of absolute paths only below /nonexistent-verif/ (the parser would read real files)",
-            "no libFuzzer campaign in this harness (fz_zonefile lives in /verif/fuzz)",
+            "fz_zonefile (thorough tier: libFuzzer campaign; quick tier: its seed corpus through the same oracle) decides the robustness clause only: texts of at most 8 KB read as UTF-8 with replacement characters; a $INCLUDE argument with a slash or backslash outside /nonexistent-verif/ is skipped",
         ],
-        subs: vec![exact_core, exact_ext, include, escapes, garbage],
+        subs: vec![exact_core, exact_ext, include, escapes, garbage, fuzz],
     })
 }
